@@ -17,7 +17,7 @@ func init() {
 // capture (from wrapErrs=true, nothing captured yet) or as a rejection
 // (capture disabled and slot cleared); other verbs leave the pair alone.
 func ruleC15b(c *Ctx) []*report.Result {
-	a := c.AFmt()
+	a := c.AWrap()
 	rb := report.NewResult("C15.b", "for every printer function to which the format loop hands a directive's verb, entered with verb %w and each state of (wrapErrs, wrappedErr): every normal exit either captured (only possible from wrapErrs=true, nothing captured) or rejected (wrapErrs=false, wrappedErr=nil) — a second %w, a non-error, nil, invalid, missing or mis-indexed operand never leaves an earlier capture in place", 6)
 	rc := report.NewResult("C15.c", "entered with any verb other than %w, the same functions leave (wrapErrs, wrappedErr) unchanged on every exit", 6)
 	takers := 0
@@ -66,7 +66,13 @@ func ruleC15b(c *Ctx) []*report.Result {
 	if takers < 3 {
 		rb.Undecide(fmt.Sprintf("only %d verb-taking functions found (floor 3: operand printer, missing-operand and bad-index reporters)", takers))
 	}
-	return []*report.Result{c.finish(rb), c.finish(rc)}
+	for _, r := range []*report.Result{rb, rc} {
+		r.Analysed = fmt.Sprintf("A-wrap: %d entry points, %d summaries, %d abstract states", len(a.Roots), len(a.It.Summaries), a.It.States)
+		for _, u := range a.It.Undecided {
+			r.Undecide(u)
+		}
+	}
+	return []*report.Result{rb, rc}
 }
 
 // ruleC15d: HelperForErrorf enables capture before formatting and reads
